@@ -116,12 +116,12 @@ pub fn valid_headers(rng: &mut Rng) -> Header {
     let (w, h) = (rng.range(1, 40) as u32, rng.range(1, 40) as u32);
     let pick_format = |rng: &mut Rng| FORMATS[rng.below(FORMATS.len() as u64) as usize].0;
     let mut hd = match rng.below(9) {
-        0 | 1 | 2 => { let f = pick_format(rng); match rng.below(3) { 0 => Header::new_image(w, h, f), 1 => Header::new_cube_map(w, w, f), _ => Header::new_volume(w, h, rng.range(1, 9) as u32, f) } }
+        0 | 1 | 2 => { let f = pick_format(rng); match rng.below(3) { 0 => Header::new_image(w, h, f), 1 => Header::new_cube_map(w, w, f), _ => Header::new_volume(w, h, if rng.chance(1, 3) { rng.range(1, 70) as u32 } else { rng.range(1, 9) as u32 }, f) } }
         3 | 4 => {
             // any valid DXGI code
             let mut d; loop { d = DxgiFormat::try_from(rng.below(200) as u32); if d.is_ok() { break; } }
             let d = d.unwrap();
-            let mut x = match rng.below(3) { 0 => Dx10Header::new_image(w, h, d), 1 => Dx10Header::new_cube_map(w, w, d), _ => Dx10Header::new_volume(w, h, rng.range(1, 9) as u32, d) };
+            let mut x = match rng.below(3) { 0 => Dx10Header::new_image(w, h, d), 1 => Dx10Header::new_cube_map(w, w, d), _ => Dx10Header::new_volume(if rng.chance(1, 3) { rng.range(1, 6) as u32 } else { w }, if rng.chance(1, 3) { rng.range(1, 6) as u32 } else { h }, if rng.chance(1, 3) { rng.range(1, 70) as u32 } else { rng.range(1, 9) as u32 }, d) };
             if rng.chance(1, 2) { x = x.with_alpha_mode([AlphaMode::Unknown, AlphaMode::Straight, AlphaMode::Premultiplied, AlphaMode::Opaque, AlphaMode::Custom][rng.below(5) as usize]); }
             if rng.chance(1, 3) && x.resource_dimension != ResourceDimension::Texture3D { x = x.with_array_size(*rng.pick(&[0u32, 1, 2, 3, 6, 7])); }
             if rng.chance(1, 6) { x = x.with_resource_dimension(ResourceDimension::Texture1D); }
@@ -170,7 +170,10 @@ pub fn run(out: &mut Out, tier: &str, seed: u64, corpus: Option<&str>, prop: &st
     if tier == "replay" { return; }
     let n = if thorough { 40000 } else { 4000 };
     for i in 0..n {
-        let h = valid_headers(&mut rng);
+        let mut h = valid_headers(&mut rng);
+        // a quarter of the C18 cases start from a file with the full mip chain whose declared count is arbitrary
+        let full_chain_case = prop == "C18" && i % 4 == 1;
+        if full_chain_case { h = h.with_mipmaps(); }
         let mut bytes = Vec::new();
         h.write(&mut bytes).unwrap();
         let dl = data_len(&h);
@@ -181,7 +184,7 @@ pub fn run(out: &mut Out, tier: &str, seed: u64, corpus: Option<&str>, prop: &st
                 // each known writer defect applied to a valid header, with the file length of the ORIGINAL header
                 let mut words: Vec<u32> = bytes[4..].chunks(4).map(|c| u32::from_le_bytes([c[0], c[1], c[2], c[3]])).collect();
                 let is10 = words.len() == 36;
-                let defect = rng.below(12);
+                let defect = if full_chain_case { 12 } else { rng.below(12) };
                 let mut second = false;
                 match defect {
                     0 => if is10 { words[34] = 0 } ,                                         // array size 0
@@ -195,6 +198,7 @@ pub fn run(out: &mut Out, tier: &str, seed: u64, corpus: Option<&str>, prop: &st
                     8 => if !is10 && words[19] & 4 != 0 { words[19] &= !4; }                 // missing FourCC flag
                     9 => if is10 { words[35] = (words[35] & !7) | rng.range(5, 7) as u32 },  // bad alpha mode
                     10 => if is10 && words[32] == 4 { words[34] = *rng.pick(&[0u32, 2, 6]) }, // 3D array size
+                    12 => { words[6] = rng.range(1, 12) as u32; }                         // full chain in the file, arbitrary count declared
                     _ => { if is10 { words[34] = 0; second = true; } }
                 }
                 if second { words[6] = words[6].wrapping_add(1); }                          // array 0 combined with a mip defect
